@@ -141,8 +141,8 @@ def gen_cases(rng, tier):
         for seq in itertools.product(range(len(ALPHA)), repeat=n):
             if n == depth and tier == "quick" and (sum(seq) + seq[0]) % 3:
                 continue
-            if n == depth and tier != "quick" and (sum(seq) + seq[0] + seq[-1]) % 2:
-                continue                      # every second depth-4 history: keeps the thorough tier near 20 minutes
+            if n == depth and tier != "quick" and (sum(seq) + seq[0] + seq[-1]) % 3:
+                continue                      # every third depth-4 history: keeps the thorough tier near 20 minutes
             cases.append({"ops": [ALPHA[i] for i in seq]})
     nr = 500 if tier == "quick" else 8000
     for _ in range(nr):
